@@ -51,6 +51,7 @@ def run_history(case):
     autotrust_cfg = case["autotrust"]          # False / True / None (= option never set: library default, off)
     autotrust = bool(autotrust_cfg)
     phones = PHONES[:n]
+    trust = {p: autotrust for p in phones}     # the option as each application has it set right now ("trust" events flip it)
     w = W.provisioned(phones, groups={}, autotrust=autotrust_cfg, pad="cycle")
     v = []
     transitions = 0
@@ -88,19 +89,16 @@ def run_history(case):
                 got = [m for m in Y.all_received()[before:] if hasattr(m, "getTag") and m.getTag() == "message" and m.getId() == e.getId()]
                 x_ok = before_pins[x][y] in (None, keys[y][gen[y]])
                 y_ok = before_pins[y][x] in (None, keys[x][gen[x]])
-                if autotrust:
-                    expect = True
-                else:
-                    expect = x_ok and y_ok
+                expect = (x_ok or trust[x]) and (y_ok or trust[y])
                 if expect and len(got) != 1:
-                    bad("not-delivered", "message %s->%s should be delivered (neither side remembers an older identity of the other%s) but reached the application %d times at step %d"
-                        % (ev[1], ev[2], ", auto-trust on" if autotrust else "", len(got), step), {"history": hist[:step + 1]})
+                    bad("not-delivered", "message %s->%s should be delivered (no side that has auto-trust off remembers an older identity of the other; auto-trust now: %s) but reached the application %d times at step %d"
+                        % (ev[1], ev[2], {NAMES[phones.index(p)]: t for p, t in trust.items()}, len(got), step), {"history": hist[:step + 1]})
                 if not expect and got:
                     bad("delivered-across-changed-identity", "message %s->%s was delivered although %s remembers an older identity of %s (step %d)"
                         % (ev[1], ev[2], ev[1] if not x_ok else ev[2], ev[2] if not x_ok else ev[1], step), {"history": hist[:step + 1]})
                 if got and got[0].getBody() != body:
                     bad("content", "delivered body differs")
-                if got and not autotrust:
+                if got and not trust[y]:
                     # a delivered message means both sides now remember each other's CURRENT identity
                     after = real_pins()
                     if after[y][x] != keys[x][gen[x]]:
@@ -129,6 +127,14 @@ def run_history(case):
                 x = phones[NAMES.index(ev[1])]
                 w.restart(x)
                 w.settle()
+            elif kind == "trust":
+                # the application flips the auto-trust option at run time (and keeps it that way across restarts)
+                x = phones[NAMES.index(ev[1])]
+                X = w.acc(x)
+                trust[x] = not trust[x]
+                X.autotrust = trust[x]
+                from yowsup.layers.axolotl.props import PROP_IDENTITY_AUTOTRUST as _P
+                X.stack.setProp(_P, trust[x])
             # invariants on the REAL stores after every event
             after = real_pins()
             for p in phones:
@@ -145,7 +151,7 @@ def run_history(case):
                         bad("pin-lost", "%s no longer remembers any identity for %s (step %d: %s)" % (p, q, step, ev), {"history": hist[:step + 1]})
                     elif was is not None and now != was:
                         which = [g for g, k in keys[q].items() if k == now]
-                        if autotrust:
+                        if trust[p]:
                             if which != [gen[q]]:
                                 bad("pin-wrong", "%s now remembers installation %s of %s, current is %s" % (p, which, q, gen[q]))
                         else:
@@ -226,6 +232,20 @@ def histories(tier):
             cc = dict(c)
             cc["autotrust"] = at
             cases.append(cc)
+    # the option switched while the process runs: exactly one flip, at least one reinstall, observed by a final send
+    for d in range(3, (4 if quick else 5) + 1):
+        slots = d - 1
+        for tpos in range(slots):
+            for tx in ("A", "B"):
+                for rest in itertools.product(ev2, repeat=slots - 1):
+                    if not any(e[0] == "reinstall" for e in rest):
+                        continue
+                    if any(rest[i][0] == "restart" and rest[i + 1][0] == "restart" for i in range(len(rest) - 1)):
+                        continue
+                    for last in (["send", "A", "B"], ["send", "B", "A"]):
+                        h = list(rest[:tpos]) + [["trust", tx]] + list(rest[tpos:]) + [last]
+                        for at in (False, True):
+                            cases.append({"accounts": 2, "history": [list(e) for e in h], "autotrust": at})
     return cases
 
 
